@@ -19,7 +19,7 @@ REQUIRED_THEOREMS = [
     'frame', 'frame_history', 'history_log', 'history_invariant',
     'add_rejects_existing', 'add_creates', 'add_plain_exact',
     'delete_partial', 'delete_frame', 'delete_keys', 'delete_by_path_witness',
-    'delete_tuple_key_deletes_nothing', 'divide_removes_mother',
+    'delete_tuple_key_deletes_nothing', 'divide_removes_mother', 'move_exact',
     'order_table', 'order_sequential', 'order_add_then_delete',
 ]
 ANCHORS = [
@@ -35,9 +35,9 @@ ANCHORS = [
     ('vivarium/library/topology.py', ['dict_to_paths']),
     ('vivarium/core/engine.py', ['Engine.apply_update']),
 ]
-BUDGET = {'quick': 260, 'thorough': 5000}
+BUDGET = {'quick': 900, 'thorough': 8000}
 DRIFT_FACTOR = 2
-CASE_TIMEOUT = 20.0
+CASE_TIMEOUT = 60.0
 RULE = ('a case is an initial composite (nested compartments ≤ depth 4, 1–6 probe processes/steps with '
         '1–3 ports each: variable ports, glob ports `*`, nested ports, ports reaching up with `..`, '
         'steps with flow) plus a history of 1–12 updates of ≤ 3 operations each (_add/_delete/_move/'
@@ -216,15 +216,21 @@ def idmap(s, path=()):
 
 
 def snapshot(root):
-    """path -> (id, attrs-dump, subtree-dump) of every node"""
+    """path -> (id, attrs-dump, subtree-dump) of every node (one bottom-up pass)"""
+    from vivarium.core.registry import updater_registry, divider_registry
     snap = {}
 
-    def rec(s, path):
-        d = dump(s)
-        snap[path] = (id(s), {k: v for k, v in d.items() if k != 'inner'}, d)
-        for k, c in s.inner.items():
-            rec(c, path + (k,))
-    rec(root, ())
+    def rec(s, path, depth):
+        if depth > 60:
+            raise Cyclic('hierarchy deeper than 60: cyclic')
+        attrs = {'v': enc_x(s.value), 'def': enc_x(s.default), 'upd': _fname(updater_registry, s.updater),
+                 'div': _fname(divider_registry, s.divider), 'sub': enc_x(s.subschema),
+                 'topo': enc_x(s.topology), 'flow': enc_x(s.flow)}
+        d = dict(attrs)
+        d['inner'] = [[k, rec(c, path + (k,), depth + 1)] for k, c in s.inner.items()]
+        snap[path] = (id(s), attrs, d)
+        return d
+    rec(root, (), 0)
     return snap
 
 
